@@ -1302,3 +1302,255 @@ _load_refactors()
 B("c03-week-year-never-previous", ["C03"], ["R49"],
   ("data", "        start_year, start_month, start_day = prev_start\n        week_date_start_year = year - 1",
    "        start_year, start_month, start_day = prev_start\n        week_date_start_year = year"))
+
+
+# ============================== whole-program behaviour-preserving transforms
+def _each_module(texts, transform):
+    import ast as _ast
+    out = {}
+    for name, text in texts.items():
+        tree = _ast.parse(text)
+        tree = transform(name, tree) or tree
+        _ast.fix_missing_locations(tree)
+        out[name] = _ast.unparse(tree) + "\n"
+    return out
+
+
+def _sort_definitions(texts):
+    """Methods of every class and functions of every module in alphabetical
+    order (same-named definitions - property getter/setter pairs - keep
+    their relative order; everything that is not a def stays in front)."""
+    import ast as _ast
+
+    def reorder(body):
+        defs = [b for b in body if isinstance(b, _ast.FunctionDef)]
+        if len(defs) < 2:
+            return body
+        first = min(i for i, b in enumerate(body)
+                    if isinstance(b, _ast.FunctionDef))
+        # keep statements that follow the first def in place relative to
+        # the defs only if they are defs/classes; otherwise do not touch
+        tail = body[first:]
+        if any(not isinstance(b, (_ast.FunctionDef,)) for b in tail):
+            return body
+        return body[:first] + sorted(tail, key=lambda d: d.name)
+
+    def tr(name, tree):
+        for n in _ast.walk(tree):
+            if isinstance(n, _ast.ClassDef):
+                n.body = reorder(n.body)
+        return tree
+    return _each_module(texts, tr)
+
+
+def _add_debug_logging(texts):
+    """A module logger and a LOG.debug(...) call at the start of every
+    function and method of the package."""
+    import ast as _ast
+
+    def tr(name, tree):
+        for n in _ast.walk(tree):
+            if isinstance(n, _ast.FunctionDef):
+                if any(isinstance(x, (_ast.Yield, _ast.YieldFrom))
+                       for x in _ast.walk(n)) and False:
+                    continue
+                call = _ast.parse("LOG.debug('enter %s', %r)" % (
+                    "%s", n.name)).body[0]
+                pos = 1 if (n.body and isinstance(n.body[0], _ast.Expr) and
+                            isinstance(n.body[0].value, _ast.Constant) and
+                            isinstance(n.body[0].value.value, str)) else 0
+                n.body.insert(pos, call)
+        pre = _ast.parse("import logging\nLOG = logging.getLogger(__name__)\n"
+                         ).body
+        # after the module docstring and __future__ imports
+        pos = 0
+        while pos < len(tree.body) and (
+                (isinstance(tree.body[pos], _ast.Expr) and isinstance(
+                    tree.body[pos].value, _ast.Constant)) or
+                (isinstance(tree.body[pos], _ast.ImportFrom) and
+                 tree.body[pos].module == "__future__")):
+            pos += 1
+        tree.body[pos:pos] = pre
+        return tree
+    return _each_module(texts, tr)
+
+
+def _annotate_and_pad(texts):
+    """Return annotations on private functions, an unused keyword-only
+    parameter on module-level private functions that are only called
+    positionally... (kept simple: annotations and docstrings only)."""
+    import ast as _ast
+
+    def tr(name, tree):
+        for n in _ast.walk(tree):
+            if isinstance(n, _ast.FunctionDef):
+                if not (n.body and isinstance(n.body[0], _ast.Expr) and
+                        isinstance(n.body[0].value, _ast.Constant)):
+                    n.body.insert(0, _ast.Expr(value=_ast.Constant(
+                        value="Documented %s." % n.name)))
+                for a in n.args.args:
+                    if a.annotation is None and a.arg not in ("self", "cls"):
+                        a.annotation = _ast.Constant(value="object")
+        return tree
+    return _each_module(texts, tr)
+
+
+def _lists_to_tuples_in_loops(texts):
+    """`for x in [a, b]` -> `for x in (a, b)`; `x in [..]` -> `x in (..)`."""
+    import ast as _ast
+
+    class T(_ast.NodeTransformer):
+        def visit_For(self, node):
+            self.generic_visit(node)
+            if isinstance(node.iter, _ast.List):
+                node.iter = _ast.Tuple(elts=node.iter.elts, ctx=_ast.Load())
+            return node
+
+        def visit_Compare(self, node):
+            self.generic_visit(node)
+            if len(node.ops) == 1 and isinstance(
+                    node.ops[0], (_ast.In, _ast.NotIn)) and isinstance(
+                        node.comparators[0], _ast.List):
+                node.comparators[0] = _ast.Tuple(
+                    elts=node.comparators[0].elts, ctx=_ast.Load())
+            return node
+
+    def tr(name, tree):
+        return T().visit(tree)
+    return _each_module(texts, tr)
+
+
+def _explicit_else_and_temps(texts):
+    """Every `if c: <...return/raise>` followed by more statements gets an
+    explicit else; every `return <call>` goes through a temporary."""
+    import ast as _ast
+
+    def leaves(body):
+        return bool(body) and isinstance(body[-1], (_ast.Return, _ast.Raise))
+
+    def fix(body, counter):
+        out = []
+        i = 0
+        while i < len(body):
+            st = body[i]
+            for fld in ("body", "orelse", "finalbody"):
+                sub = getattr(st, fld, None)
+                if isinstance(sub, list) and sub and isinstance(
+                        sub[0], _ast.stmt) and not isinstance(
+                            st, (_ast.FunctionDef, _ast.ClassDef)):
+                    setattr(st, fld, fix(sub, counter))
+            if isinstance(st, _ast.Try):
+                for h in st.handlers:
+                    h.body = fix(h.body, counter)
+            if isinstance(st, _ast.If) and not st.orelse and leaves(st.body) \
+                    and i + 1 < len(body):
+                st.orelse = fix(body[i + 1:], counter)
+                out.append(st)
+                return out
+            if isinstance(st, _ast.Return) and isinstance(
+                    st.value, _ast.Call):
+                counter[0] += 1
+                nm = "result_%d" % counter[0]
+                out.append(_ast.Assign(
+                    targets=[_ast.Name(id=nm, ctx=_ast.Store())],
+                    value=st.value))
+                out.append(_ast.Return(value=_ast.Name(id=nm,
+                                                       ctx=_ast.Load())))
+                i += 1
+                continue
+            out.append(st)
+            i += 1
+        return out
+
+    def tr(name, tree):
+        for n in _ast.walk(tree):
+            if isinstance(n, _ast.FunctionDef):
+                if any(isinstance(x, (_ast.Yield, _ast.YieldFrom))
+                       for x in _ast.walk(n)):
+                    continue
+                n.body = fix(n.body, [0])
+        return tree
+    return _each_module(texts, tr)
+
+
+K("zzk-sort-definitions", _sort_definitions,
+  note="methods in alphabetical order in every class")
+K("zzk-debug-logging-everywhere", _add_debug_logging,
+  note="module logger + LOG.debug at the start of every function")
+K("zzk-annotations-docstrings", _annotate_and_pad,
+  note="parameter annotations and docstrings everywhere")
+K("zzk-lists-to-tuples", _lists_to_tuples_in_loops,
+  note="list literals in iteration / membership position become tuples")
+K("zzk-explicit-else-and-return-temps", _explicit_else_and_temps,
+  note="explicit else after leaving ifs; returned calls via temporaries")
+
+
+def _mirror_constant_comparisons(texts):
+    """`x == 1` -> `1 == x`, `x < 0` -> `0 > x` wherever the right operand
+    is a constant and the left is not."""
+    import ast as _ast
+    flip = {_ast.Eq: _ast.Eq, _ast.NotEq: _ast.NotEq, _ast.Lt: _ast.Gt,
+            _ast.Gt: _ast.Lt, _ast.LtE: _ast.GtE, _ast.GtE: _ast.LtE}
+
+    class T(_ast.NodeTransformer):
+        def visit_Compare(self, node):
+            self.generic_visit(node)
+            if len(node.ops) == 1 and type(node.ops[0]) in flip and \
+                    isinstance(node.comparators[0], _ast.Constant) and \
+                    node.comparators[0].value is not None and \
+                    not isinstance(node.left, _ast.Constant):
+                return _ast.Compare(left=node.comparators[0],
+                                    ops=[flip[type(node.ops[0])]()],
+                                    comparators=[node.left])
+            return node
+
+    def tr(name, tree):
+        return T().visit(tree)
+    return _each_module(texts, tr)
+
+
+def _condition_temps(texts):
+    """Every `if <test>:` of a function body becomes
+    `cond_N = <test>; if cond_N:` (elif links excepted), and a `pass` is
+    put in front of every return."""
+    import ast as _ast
+
+    def fix(body, counter, chain=False):
+        out = []
+        for st in body:
+            for fld in ("body", "orelse", "finalbody"):
+                sub = getattr(st, fld, None)
+                if isinstance(sub, list) and sub and isinstance(
+                        sub[0], _ast.stmt) and not isinstance(
+                            st, (_ast.FunctionDef, _ast.ClassDef)):
+                    is_elif = (fld == "orelse" and isinstance(st, _ast.If)
+                               and len(sub) == 1 and isinstance(
+                                   sub[0], _ast.If))
+                    setattr(st, fld, fix(sub, counter, is_elif))
+            if isinstance(st, _ast.Try):
+                for h in st.handlers:
+                    h.body = fix(h.body, counter)
+            if isinstance(st, _ast.If) and not chain:
+                counter[0] += 1
+                nm = "cond_%d" % counter[0]
+                out.append(_ast.Assign(
+                    targets=[_ast.Name(id=nm, ctx=_ast.Store())],
+                    value=st.test))
+                st.test = _ast.Name(id=nm, ctx=_ast.Load())
+            if isinstance(st, _ast.Return):
+                out.append(_ast.Pass())
+            out.append(st)
+        return out
+
+    def tr(name, tree):
+        for n in _ast.walk(tree):
+            if isinstance(n, _ast.FunctionDef):
+                n.body = fix(n.body, [0])
+        return tree
+    return _each_module(texts, tr)
+
+
+K("zzk-mirror-constant-comparisons", _mirror_constant_comparisons,
+  note="constants on the left of comparisons")
+K("zzk-condition-temporaries", _condition_temps,
+  note="if tests through temporaries, pass before returns")
